@@ -257,5 +257,5 @@ def cases(tier):
 
 ASSUMPTIONS = ["SoC configurations from a grid (cpu_type=None; wishbone/axi-lite; CSR data width 32 (8: known finding); paging 0x400/0x800/0x1000; ordering big (little: known finding for multi-word registers)); all register data symbolic",
                "the access starts from a state in which every control register (FSM states, flags, time-out counter) holds its reset value while all CSR storages, staging registers and memory contents are arbitrary; the bus master holds the request until ack (Wishbone classic)",
-               "C accessors are interpreted by a parser for the emitted csr_read_simple/csr_write_simple statements; SVD and soc.h constants are not covered; big-endian images for buses wider than 32 bits are not judged",
+               "C accessors are interpreted by a parser for the emitted csr_read_simple/csr_write_simple statements; SVD, soc.h constants, mem.h and linker regions are in C14_mem_exports.py; big-endian images for buses wider than 32 bits are not judged",
                "memory images: bounded stand-in (file lengths 1..19)"]
